@@ -650,6 +650,38 @@ def search(ctx):
                             rep.fail("failing-input", "value of %r changes in the round trip: %r at a=%r" % (wc["s"], gc["kv"], pt[:4]),
                                      "C17:roundtrip:value", input={"cell": wc["s"], "point": pt[:4], "ranks": P}, observed=gn, expected=wn)
                             break
+        # ... and once more through the text mode: the rows load_subs(use_sympy=False) returns, written back the way
+        # duplicate_checker.main writes inv_subs_<n>.txt and read again, are still the recorded mappings
+        got2 = outs[0].get("rows_second")
+        if got2 is not None:
+            for j, (grow, wrow) in enumerate(zip(got2, written)):
+                if nbad >= 3:
+                    break
+                if len(grow) != len(wrow):
+                    nbad += 1
+                    rep.fail("failing-input", "row %d has %d cells after the text-mode rewrite, %d were recorded (%d ranks)" % (j, len(grow), len(wrow), P),
+                             "C17:roundtrip2:row-shift", input={"ranks": P, "row": j, "written": [c["s"] for c in wrow]}, observed=len(grow), expected=len(wrow))
+                    continue
+                for gc, wc in zip(grow, wrow):
+                    rep.evaluations += 1
+                    if wc.get("nan") or "num" not in gc:
+                        if bool(wc.get("nan")) != bool(gc.get("nan")):
+                            nbad += 1
+                            rep.fail("failing-input", "cell %r comes back as %r after the text-mode rewrite (%d ranks)" % (wc["s"], gc, P),
+                                     "C17:roundtrip2:cell", input={"ranks": P, "row": j, "cell": wc["s"]}, observed=gc, expected=wc.get("kv", "nan"))
+                        continue
+                    if [k for k, _ in gc["kv"]] != [k for k, _ in wc["kv"]]:
+                        nbad += 1
+                        rep.fail("failing-input", "keys of %r change when the text-mode rows are written back and read again (%d ranks)" % (wc["s"], P),
+                                 "C17:roundtrip2:keys", input={"ranks": P, "row": j, "cell": wc["s"]}, observed=gc["kv"], expected=wc["kv"])
+                        continue
+                    for pt, gn, wn in zip(POINTS, gc["num"], wc["num"]):
+                        if not all(close(a, b, 1e-12) for a, b in zip(gn, wn)):
+                            nbad += 1
+                            rep.fail("failing-input", "value of %r changes when the text-mode rows are written back and read again: %r at a=%r" % (
+                                wc["s"], gc["kv"], pt[:4]), "C17:roundtrip2:value", input={"cell": wc["s"], "point": pt[:4], "ranks": P},
+                                observed=gn, expected=wn)
+                            break
         rep.case(key=("roundtrip", P), sample={"ranks": P, "rows": len(written)})
     # (1b) the small files (0..23 rows, fewer rows than ranks, empty rows): row i stays row i, with as many steps, nan <-> nan and the
     #      same keys, for every rank count -- stated on what was written, not on the model
